@@ -224,10 +224,17 @@ func (st *Settings) Encode() {
 		)
 	}
 
+	// The initial value of SETTINGS_ENABLE_PUSH is 1, so leaving the parameter
+	// out does not disable push: it has to be sent as 0 (RFC 7540 6.5.2).
 	if st.enablePush {
 		st.rawSettings = append(st.rawSettings,
 			byte(EnablePush>>8), byte(EnablePush),
 			0, 0, 0, 1,
+		)
+	} else {
+		st.rawSettings = append(st.rawSettings,
+			byte(EnablePush>>8), byte(EnablePush),
+			0, 0, 0, 0,
 		)
 	}
 
